@@ -103,6 +103,9 @@ def h_getscript(k):
             exp = exp + l.decode("utf-8") + ("\n" if i < k - 1 else "")
         except UnicodeDecodeError:
             return      # a body that is not UTF-8: outside the conforming-server assumption
+    if k > 0:
+        # bodies are compared ignoring trailing blank lines (the property's quantifier): the last line here is not blank
+        assume(len(lines[k - 1]) > 0)
     reply = b"{" + int_to_bytes(len(body)) + b"}" + CRLF + body + CRLF + b'OK "Getscript completed."' + CRLF
     later = sym_bytes("bytes_of_the_next_reply")
     c._Client__read_buffer = reply + later
